@@ -71,7 +71,7 @@ def run_tasks(tasks, seed=0, nproc=None):
     args = []
     for t in tasks:
         if t.shards > 1:
-            depth = max(3, (t.shards - 1).bit_length() + 3)
+            depth = max(3, (t.shards - 1).bit_length() + 6)
             for i in range(t.shards):
                 args.append((t.mod, t.fn, t.params, t.model, t.witness_every, t.twin, t.max_paths,
                              seed, t.name, (i, t.shards, depth)))
